@@ -31,7 +31,7 @@ from ..engine.normalize import inline_helpers, positional
 from ..engine.order import Atom, OrderInterp
 from ..engine.report import AnalysisError, Run
 from ..engine.resolver import ClassInfo, FuncInfo, Program, body_walk, find_installed_source, parent_map
-from ..engine.sympath import Path as SymPath, SymExec, sym_paths
+from ..engine.sympath import Path as SymPath, SymExec, SymUnsupported, sym_paths
 from ..engine.util import u
 from ._c03_util import AgeInterp, Lin, Poison, RoleInterp, SetV, StateRead, is_property, is_static, resolve_local, seg, self_obj, splice, unroll_literal_loops
 
@@ -155,6 +155,7 @@ def check_clamp(run: Run, prog: Program) -> None:
         return ("bad", bad) if bad else None
 
     outs = it.explore(fn.node, make_args, post)
+    _register(run, it)
     _report_orderings(run, "C03.ENV", fn, outs, "clamp_to_bounds post-condition "
                       "(L <= r <= U, r outside the exclusion zone or zero, admissible value unchanged)")
     run.extra_cov.setdefault("abstract_paths", {})["clamp_to_bounds"] = len(outs)
@@ -186,6 +187,12 @@ def _report_orderings(run: Run, rule: str, fn: FuncInfo, outs: list[Any], what: 
                 "example_path": [f"{l}={d}" for l, d in zip(outs[0].labels, outs[0].decisions)] if outs else []})
 
 
+def _register(run: Run, it: RoleInterp) -> None:
+    """Every program function the abstract runs entered is one the verdict depends on."""
+    for q in sorted(it.visited):
+        run.analysed(q)
+
+
 def _any_bad(outs: list[Any]) -> bool:
     """Some abstract path violates its post-condition (the path floors guard vacuous passes only)."""
     return any(o.kind == "raise" or o.post is not None for o in outs)
@@ -198,7 +205,6 @@ def _return_of(fn: FuncInfo, out: Any) -> str:
 def check_adjust(run: Run, prog: Program) -> None:
     fn = prog.func(f"{BOUNDS}:adjust_exclusion_bounds")
     run.analysed(fn.qual)
-    run.analysed(f"{BOUNDS}:check_exclusion_bounds_overlap")
     if len(fn.params) != 3:
         raise AnalysisError(f"{fn.qual}: expected (lower_bound, upper_bound, exclusion_bounds)")
     it = RoleInterp(prog, prog.module(BOUNDS))
@@ -237,6 +243,7 @@ def check_adjust(run: Run, prog: Program) -> None:
         return ("bad", bad) if bad else None
 
     outs = it.explore(fn.node, make_args, post)
+    _register(run, it)
     _report_orderings(run, "C03.ENV", fn, outs, "adjust_exclusion_bounds post-condition (never "
                       "widens, ends outside the zone, collapses to zero only inside the zone)")
     run.extra_cov.setdefault("abstract_paths", {})["adjust_exclusion_bounds"] = len(outs)
@@ -709,6 +716,8 @@ def check_sweep(run: Run, prog: Program, tier: str = "quick") -> None:
         return ("bad", bad) if bad else None
 
     outs = it2.explore(sfn, step_args, step_post)
+    _register(run, it)
+    _register(run, it2)
     _report_orderings(run, "C03.ENV", fn, outs, "inductive step of the sweep (system bounds contain "
                       "running bounds and target; target zero or outside the zone)")
     run.extra_cov.setdefault("abstract_paths", {})["sweep_step"] = len(outs)
@@ -1073,30 +1082,26 @@ def _spliced_into(prog: Program, fn: FuncInfo) -> set[str]:
 
 
 # ---------------------------------------------------------------------------------------------
-def _key_fields(prog: Program, cls: ClassInfo, m: FuncInfo, depth: int = 3) -> set[str]:
-    """Data attributes of the compared objects that `m` reads (through helper methods)."""
-    recv = set(m.params[:2]) if not is_static(m) else set()
+def _key_fields(prog: Program, cls: ClassInfo, m: FuncInfo, depth: int = 3, n_recv: int = 2) -> set[str]:
+    """Data attributes of the compared objects that decide `m`'s result: those read by the path
+    conditions and the returned expressions (locals substituted, helper methods followed) — an
+    attribute that is read into a dead local does not count."""
+    recv = set(m.params[:n_recv]) if not is_static(m) else set()
+    try:
+        paths = sym_paths(inline_helpers(prog, m), opaque=None)
+        exprs: list[ast.AST] = [t for p in paths for _k, _o, t, _ln, _w in p.conds]
+        exprs += [p.ret for p in paths if p.ret is not None]
+    except SymUnsupported:
+        exprs = list(m.node.body)
     out: set[str] = set()
-    for n in body_walk(m.node):
-        if isinstance(n, ast.Attribute) and isinstance(n.value, ast.Name) and n.value.id in recv:
-            h = prog.resolve_method(cls, n.attr)
-            if h is not None and depth > 0:
-                out |= _key_fields_self(prog, cls, h, depth - 1)
-            else:
-                out.add(n.attr)
-    return out
-
-
-def _key_fields_self(prog: Program, cls: ClassInfo, m: FuncInfo, depth: int) -> set[str]:
-    recv = set(m.params[:1]) if not is_static(m) else set()
-    out: set[str] = set()
-    for n in body_walk(m.node):
-        if isinstance(n, ast.Attribute) and isinstance(n.value, ast.Name) and n.value.id in recv:
-            h = prog.resolve_method(cls, n.attr)
-            if h is not None and depth > 0:
-                out |= _key_fields_self(prog, cls, h, depth - 1)
-            else:
-                out.add(n.attr)
+    for e in exprs:
+        for n in ast.walk(e):
+            if isinstance(n, ast.Attribute) and isinstance(n.value, ast.Name) and n.value.id in recv:
+                h = prog.resolve_method(cls, n.attr)
+                if h is not None and depth > 0:
+                    out |= _key_fields(prog, cls, h, depth - 1, 1)
+                else:
+                    out.add(n.attr)
     return out
 
 
@@ -1145,6 +1150,7 @@ def check_ord(run: Run, prog: Program) -> None:
             return None if res is expect else ("bad", [f"returns {res} where {expect} is required"])
 
         outs = it.explore(m.node, make_args, post)
+        _register(run, it)
         n_bad = sum(1 for o in outs if o.kind == "raise" or o.post is not None)
         if n_bad:
             run.check(False, "C03.ORD", m.qual, what, msg + f" ({n_bad} of {len(outs)} weak orderings of the "
@@ -1277,6 +1283,7 @@ def check_age(run: Run, prog: Program) -> None:
         return ("bad", bad) if bad else None
 
     outs = it.explore(fn.node, make_args, post)
+    _register(run, it)
     _report_orderings(run, "C03.AGE", fn, outs, "expiry sweep on the model buckets "
                       f"{ {g: list(a) for g, a in AGE_MODEL} } (every proposal with loop_time - creation_time > max_age is removed "
                       "from its bucket, nothing else changes)")
@@ -1483,23 +1490,10 @@ def structural_controls(prog: Program) -> list[tuple[str, str, str, str, str]]: 
         edits3: list[tuple[ast.AST, str]] = []
         for r in r3:
             i = parents.get(r)
-            if not isinstance(i, ast.If):
-                continue
-            for c in (n for n in ast.walk(i.test) if isinstance(n, ast.Compare)):
-                operands = [c.left] + list(c.comparators)
-                parts = [seg(bsrc, operands[0])]
-                changed = False
-                for k, op in enumerate(c.ops):
-                    a, b = u(operands[k]), u(operands[k + 1])
-                    sym = {ast.Lt: "<", ast.Gt: ">", ast.LtE: "<=", ast.GtE: ">=", ast.Eq: "==", ast.NotEq: "!=",
-                           ast.Is: "is", ast.IsNot: "is not", ast.In: "in", ast.NotIn: "not in"}[type(op)]
-                    if isinstance(op, ast.Lt) and a == v and b == f"{ex}.upper":
-                        sym, changed = "<=", True
-                    elif isinstance(op, ast.Gt) and b == v and a == f"{ex}.upper":
-                        sym, changed = ">=", True
-                    parts += [sym, seg(bsrc, operands[k + 1])]
-                if changed:
-                    edits3 += [(c, " ".join(parts)), (r.value.elts[1], f"{ex}.lower")]  # type: ignore[attr-defined]
+            if isinstance(i, ast.If) and len(i.body) == 1:
+                # the zone's upper edge is treated as inside: an admissible value is moved
+                edits3 += [(i.test, f"({seg(bsrc, i.test)}) or ({ex} is not None and {v} == {ex}.upper)"),
+                           (r.value.elts[1], f"{ex}.lower")]  # type: ignore[attr-defined]
         add(CONTROLS[2][0], BOUNDS, edits3)
     msrc = prog.module(MAT).source
     ct = prog.func(f"{MAT}:Matryoshka.calculate_target_power")
